@@ -61,8 +61,8 @@ fn c19_tags_from_parts_small() {
 static BIG: [u8; 70_000] = [b'x'; 70_000];
 
 //@ harness: c19_tags_from_parts_u16
-//@ tier: quick
-//@ timeout: 1500
+//@ tier: thorough
+//@ timeout: 3600
 //@ mem: 16
 //@ covers: none
 //@ encodes: Tags::from_parts, Tags::output_size_needed
